@@ -50,6 +50,19 @@ UNIT = {
                                           ('all_of_other', 'forall |k: Name| other.0@.contains_key(k) ==> exists |j: int| 0 <= j < it.seq().len() && *(#[trigger] it.seq()[j]).0 == k'),
                                           ('same_names', 'self.0@.dom() =~= old(self).0@.dom()'),
                                           ('values_so_far', 'forall |k: Name| #[trigger] self.0@.contains_key(k) ==> self.0@[k] == (if exists |j: int| 0 <= j < it.index@ && *(#[trigger] it.seq()[j]).0 == k { other.0@[k] } else { old(self).0@[k] })')]}}},
+        {'kind': 'closure', 'src': K, 'path': 'fn build_evaluator', 'key': 'reqgraph::knowledge_model_closure', 'props': P, 'auto_props': A, 'loops': 1,
+         'closure_header': r'Ok\(Box::new\(\s*move \|input_data: &FeelContext, model_evaluator: &ModelEvaluator, output_data: &mut FeelContext\| \{',
+         'signature': 'pub fn knowledge_model_closure(input_data: &FeelContext, model_evaluator: &ModelEvaluator, output_data: &mut FeelContext, requirements: &Vec<String>, name: &Name, function: &Value)',
+         'rewrites': [FOR_EACH('requirements', 'id'),
+                      ('RX', 'R4c', r'output_data\.set_entry\(&name, function\.clone\(\)\)', 'output_data.set_entry(name, function.clone())', 1)],
+         'body_prefix': PRE,
+         'requires': [('registries_readable', 'locks_ok(%s)' % ME)],
+         'ensures': [('required_knowledge_as_functions_then_its_own_function_under_its_name',
+                      'final(output_data).0@ == fold_know(%s, requirements@, input_data.0@, old(output_data).0@, requirements@.len() as int).insert(*name, *function)' % ME)],
+         'loop_specs': {0: {'iter_name': 'it', 'body_prefix': PRE,
+                            'invariant': [('ids', 'it.seq().len() == requirements@.len() && forall |j: int| 0 <= j < it.seq().len() ==> *(#[trigger] it.seq()[j]) == requirements@[j]'),
+                                          ('owners', 'business_knowledge_model_evaluator.owner() == %s && decision_service_evaluator.owner() == %s' % (ME, ME)),
+                                          ('required_knowledge_so_far', 'output_data.0@ == fold_know(%s, requirements@, input_data.0@, old(output_data).0@, it.index@ as int)' % ME)]}}},
         {'kind': 'closure', 'src': D, 'path': 'fn build_decision_evaluator', 'key': 'reqgraph::decision_closure', 'props': P, 'auto_props': A, 'loops': 4, 'ret': 'r',
          'closure_header': r'let decision_evaluator = Box::new\(\s*move \|input_data_ctx: &FeelContext, model_evaluator: &ModelEvaluator, output_data_ctx: &mut FeelContext\| \{',
          'signature': DEC_SIG,
@@ -101,7 +114,7 @@ ASSUMPTIONS = [
     'A-eval: the value of the decision logic is a function of the evaluator and of the ENTRIES of the one context it is evaluated over (logic_value; axiom_logic_value)',
 ]
 NOT_DECIDED = {'C04': ['that build_decision_evaluator collects the reference lists from the requirements as written and builds the logic evaluator from the decision logic (the part of the builder outside the closure)',
-                       'knowledge model and decision service closures (business_knowledge_model.rs build_evaluator, decision_service.rs): planned, see DESIGN',
+                       'the decision service closures (decision_service.rs) and what build_business_knowledge_model_evaluator hands to build_evaluator (formal parameters, body, result type)',
                        'boxed expression evaluators of builders/mod.rs (their scope half is under contract in unit purity)',
                        'evaluate_invocable dispatch by name; independence of input entries outside the requirement closure beyond "they do not enter the logic context" (the callees\' own independence is the induction hypothesis)',
                        'what two requirements that produce the same name do to each other (later writer wins as coded; the property does not say)']}
